@@ -9,6 +9,7 @@ import (
 	"errors"
 	"fmt"
 	"io"
+	"math"
 	"os"
 	"sort"
 	"strconv"
@@ -22,6 +23,10 @@ var (
 	// PrintWriter is the default writer for printf and println builtins.
 	PrintWriter io.Writer = os.Stdout
 )
+
+// maxAllocLen is the largest number of elements that repeat and :makeArray try to
+// allocate. Larger requests cannot be honoured and are reported as errors.
+const maxAllocLen = math.MaxInt32
 
 // BuiltinType represents a builtin type
 type BuiltinType byte
@@ -353,6 +358,13 @@ func builtinMakeArrayFunc(n int, arg Object) (Object, error) {
 	if n <= 0 {
 		return arg, nil
 	}
+	if n > maxAllocLen {
+		return nil, NewArgumentTypeError(
+			"1st",
+			"integer less than or equal to "+strconv.Itoa(maxAllocLen),
+			"too large integer",
+		)
+	}
 
 	arr, ok := arg.(Array)
 	if !ok {
@@ -452,11 +464,21 @@ func builtinRepeatFunc(arg Object, count int) (ret Object, err error) {
 			"negative integer",
 		)
 	}
+	if v, ok := arg.(LengthGetter); ok {
+		if n := v.Len(); n > 0 && count > maxAllocLen/n {
+			return nil, NewArgumentTypeError(
+				"2nd",
+				"integer with len*count less than or equal to "+
+					strconv.Itoa(maxAllocLen),
+				"too large integer",
+			)
+		}
+	}
 
 	switch v := arg.(type) {
 	case Array:
 		out := make(Array, 0, len(v)*count)
-		for i := 0; i < count; i++ {
+		for i := 0; i < count && len(v) > 0; i++ {
 			out = append(out, v...)
 		}
 		ret = out
